@@ -1,6 +1,5 @@
 (* C03/Witness.v — non-vacuity of the hypotheses of the theorems in Properties.v (concrete runs that
-   reach the Return with accepted data, failures, a partial batch, a persistent store), and the witness
-   of shutdown_terminates_refuted. *)
+   reach the Return with accepted data, failures, a partial batch, a persistent store). *)
 From Verif Require Import Common.Base C03.Model C03.Proofs C03.ProofsB C03.Proofs2 C03.Proofs3 C03.Obs.
 
 Definition cfg_mem : cfg := mkCfg true false false false true 2 0 8.          (* memory queue, 2 consumers, retry *)
@@ -16,7 +15,7 @@ Definition final (hc : hcfg) (acts : list action) : option state :=
 Definition acts_mem := [AOffer 1 1; AOffer 2 1; AOffer 3 1; ARelease 1 OTransient; AShutdown;
                         ARelease 2 OOk; ARelease 3 OPermanent].
 Example ex_memory_run :
-  match final (mkH cfg_mem 1 0 0 false false false) acts_mem with
+  match final (mkH cfg_mem 1 0 0 false false false false) acts_mem with
   | Some s => pc s = PReturned /\ accpre s = [3; 2; 1] /\ failures s = 2 /\
               begun s = [3; 2; 1] /\ ended s = [3; 2; 1] /\
               finished s = [(3, RFail); (2, RSuccess); (1, RShutdown)] /\ live s = 0
@@ -26,14 +25,14 @@ Proof. vm_compute. repeat split. Qed.
 
 (* no failure: every id exactly once; short back-off with a retry: id 1 is exported twice *)
 Example ex_exactly_once :
-  match final (mkH cfg_mem 1 0 0 false false false) [AOffer 1 1; AOffer 2 1; AOffer 3 1; AShutdown; ARelease 2 OOk; ARelease 1 OOk; ARelease 3 OOk] with
+  match final (mkH cfg_mem 1 0 0 false false false false) [AOffer 1 1; AOffer 2 1; AOffer 3 1; AShutdown; ARelease 2 OOk; ARelease 1 OOk; ARelease 3 OOk] with
   | Some s => pc s = PReturned /\ failures s = 0 /\ cnt 1 (begun s) = 1 /\ cnt 2 (begun s) = 1 /\ cnt 3 (begun s) = 1
   | None => False
   end.
 Proof. vm_compute. repeat split. Qed.
 
 Example ex_retried_twice :
-  match final (mkH cfg_mem 2 0 0 false false false) [AOffer 1 1; ARelease 1 OTransient; ARelease 1 OOk; AShutdown] with
+  match final (mkH cfg_mem 2 0 0 false false false false) [AOffer 1 1; ARelease 1 OTransient; ARelease 1 OOk; AShutdown] with
   | Some s => pc s = PReturned /\ failures s = 1 /\ cnt 1 (begun s) = 2 /\ finished s = [(1, RSuccess)]
   | None => False
   end.
@@ -42,7 +41,7 @@ Proof. vm_compute. repeat split. Qed.
 (* batcher, min_size 5: requests 1 and 2 (1 item each) sit in the current batch when Shutdown is called;
    the final flush exports them together *)
 Example ex_partial_batch :
-  match final (mkH cfg_batch 1 5 0 false false false) [AOffer 1 1; AOffer 2 1] , final (mkH cfg_batch 1 5 0 false false false) [AOffer 1 1; AOffer 2 1; AShutdown; ARelease 1 OOk] with
+  match final (mkH cfg_batch 1 5 0 false false false false) [AOffer 1 1; AOffer 2 1] , final (mkH cfg_batch 1 5 0 false false false false) [AOffer 1 1; AOffer 2 1; AShutdown; ARelease 1 OOk] with
   | Some s1, Some s2 => current s1 = [1; 2] /\ begun s1 = [] /\ pc s2 = PReturned /\ begun s2 = [1; 2] /\
                         finished s2 = [(1, RSuccess); (2, RSuccess)] /\ timer s2 = TExit /\ live s2 = 0
   | _, _ => False
@@ -53,8 +52,8 @@ Proof. vm_compute. repeat split. Qed.
    the three requests stay in the storage; 4 (partial batch) is exported by the final flush and deleted;
    the client is closed only then *)
 Example ex_persistent :
-  match final (mkH cfg_pers 1 3 0 false false false) [AOffer 1 1; AOffer 2 1; AOffer 3 1; AOffer 4 1; ARelease 1 OTransient; AShutdown],
-        final (mkH cfg_pers 1 3 0 false false false) [AOffer 1 1; AOffer 2 1; AOffer 3 1; AOffer 4 1; ARelease 1 OTransient; AShutdown; ARelease 4 OOk] with
+  match final (mkH cfg_pers 1 3 0 false false false false) [AOffer 1 1; AOffer 2 1; AOffer 3 1; AOffer 4 1; ARelease 1 OTransient; AShutdown],
+        final (mkH cfg_pers 1 3 0 false false false false) [AOffer 1 1; AOffer 2 1; AOffer 3 1; AOffer 4 1; ARelease 1 OTransient; AShutdown; ARelease 4 OOk] with
   | Some s1, Some s2 =>
       closed s1 = false /\ qstop s1 = true /\ refs s1 = 1 /\
       pc s2 = PReturned /\ sort_nat (store s2) = [1; 2; 3] /\ closed s2 = true /\
@@ -63,10 +62,10 @@ Example ex_persistent :
   end.
 Proof. vm_compute. repeat split. Qed.
 
-(* hypotheses of shutdown_terminates_partial: a state in the middle of the drain, its measure *)
+(* hypotheses of shutdown_terminates: a state in the middle of the drain, its measure *)
 Example ex_mu :
-  match final (mkH cfg_batch 1 5 0 false false false) [AOffer 1 1; AOffer 2 1; AShutdown] with
-  | Some s => is_not (pc s) = false /\ pc s <> PReturned /\ mu cfg_batch s = 8 /\ (c_batch cfg_batch = true -> 1 <= c_nwork cfg_batch) /\ 1 <= c_maxparts cfg_batch
+  match final (mkH cfg_batch 1 5 0 false false false false) [AOffer 1 1; AOffer 2 1; AShutdown] with
+  | Some s => ge_stopclosed (pc s) = true /\ pc s <> PReturned /\ mu cfg_batch s = 8 /\ (c_batch cfg_batch = true -> 1 <= c_nwork cfg_batch) /\ 1 <= c_maxparts cfg_batch
   | None => False
   end.
 Proof. vm_compute. repeat split; try discriminate; auto; lia. Qed.
@@ -74,7 +73,7 @@ Proof. vm_compute. repeat split; try discriminate; auto; lia. Qed.
 (* a late offer (after the queue was stopped and the consumers left) is accepted by the memory queue and
    stays there: it is in [late], not in [accpre] — the theorems do not speak about it, the code loses it *)
 Example ex_late_offer :
-  match final (mkH cfg_mem 1 0 0 false false false) [AOffer 1 1; AShutdown; ARelease 1 OOk; AOffer 2 1] with
+  match final (mkH cfg_mem 1 0 0 false false false false) [AOffer 1 1; AShutdown; ARelease 1 OOk; AOffer 2 1] with
   | Some s => pc s = PReturned /\ queue s = [2] /\ late s = [2] /\ accpre s = [1] /\ begun s = [1]
   | None => False
   end.
@@ -85,7 +84,7 @@ Proof. vm_compute. repeat split. Qed.
    current batch); the first part fails permanently, the second is merged with request 2 and is interrupted by
    Shutdown in its back-off: request 1's verdict is the shutdown error (kept in the storage), nparts = 2 *)
 Example ex_split :
-  match final (mkH cfg_pers 1 2 2 false false false)
+  match final (mkH cfg_pers 1 2 2 false false false false)
           [AOffer 1 3; ARelease 1 OPermanent; AOffer 2 1; ARelease 1 OTransient; AShutdown] with
   | Some s => pc s = PReturned /\ cnt 1 (nparts s) = 2 /\ cnt 1 (begun s) = 2 /\
               partlog s = [(1, RShutdown); (2, RShutdown); (1, RFail)] /\
@@ -97,8 +96,8 @@ Proof. vm_compute. repeat split. Qed.
 (* exporter without queue: Send 1 is in its back-off, Send 2 inside the export call when Shutdown is called;
    Shutdown returns at once, the back-off is released with the shutdown error, the open call ends later *)
 Example ex_direct :
-  match final (mkH cfg_direct 1 0 0 false false false) [ASend 1; ARelease 1 OTransient; ASend 2; AShutdown],
-        final (mkH cfg_direct 1 0 0 false false false) [ASend 1; ARelease 1 OTransient; ASend 2; AShutdown; ARelease 2 OTransient] with
+  match final (mkH cfg_direct 1 0 0 false false false false) [ASend 1; ARelease 1 OTransient; ASend 2; AShutdown],
+        final (mkH cfg_direct 1 0 0 false false false false) [ASend 1; ARelease 1 OTransient; ASend 2; AShutdown; ARelease 2 OTransient] with
   | Some s1, Some s2 => pc s1 = PReturned /\ finished s1 = [(1, RShutdown)] /\ length (works s1) = 1 /\ live s1 = 1 /\
                         finished s2 = [(2, RShutdown); (1, RShutdown)] /\ begun s2 = [2; 1] /\ live s2 = 0
   | _, _ => False
@@ -122,12 +121,21 @@ Proof. vm_compute. repeat split. Qed.
 (* the observation-level property: a recorded schedule that satisfies it, one that violates clause 7 (request 2 was
    accepted before Shutdown and never exported) *)
 Example ex_obs_ok :
-  prop_viol ([0;0;0;0;1;0;0;0;0;0;1],
+  prop_viol ([0;0;0;0;1;0;0;0;0;0;1;0],
              [((0,1,1), [(0,[1]); (4,[1])]); ((0,2,1), [(4,[2])]); ((2,0,0), []);
               ((1,1,0), [(0,[2]); (1,[1])]); ((1,2,0), [(1,[2]); (2,[]); (3,[])])], ([], 0)) = 0.
 Proof. vm_compute. reflexivity. Qed.
 Example ex_obs_lost :
-  prop_viol ([0;0;0;0;1;0;0;0;0;0;1],
+  prop_viol ([0;0;0;0;1;0;0;0;0;0;1;0],
              [((0,1,1), [(0,[1]); (4,[1])]); ((0,2,1), [(4,[2])]); ((2,0,0), []);
               ((1,1,0), [(1,[1]); (2,[]); (3,[])])], ([], 0)) = 7.
 Proof. vm_compute. reflexivity. Qed.
+
+(* the zero-delay branch: after stop the back-off TIMER branch ends the work with the shutdown error (no new begin) *)
+Example ex_timer_after_stop :
+  match run cfg_direct (init cfg_direct) [LSend 1; LBegin 0; LShutCall; LCloseStop; LNoQueue; LInnerShutdown; LReturn;
+                                          LEnd 0 OTransient; LRetryTimer 0; LDone 0] with
+  | Some s => pc s = PReturned /\ begun s = [1] /\ finished s = [(1, RShutdown)] /\ works s = []
+  | None => False
+  end.
+Proof. vm_compute. repeat split. Qed.
